@@ -97,6 +97,19 @@ def cases(draw, dag=False):
         scen.append([["eval", ["Qd"], "dq", [], None, "()"], ["set_ref", ["Qr"], "rq", ["v", 40], None],
                      ["eval", ["Qd"], "dq", [], None, "()"], ["set_ref", ["Qr"], "rq", ["v", 500], None],
                      ["eval", ["Qd"], "dq", [], None, "()"]])
+    if not dag and draw(st.integers(0, 2)) == 0:
+        # a cells whose formula answers None for some arguments (None is not allowed): the error is the same
+        # whether the cells keeps its values or not, also for a caller
+        extra = [["new_space", [], "Qn", None, None],
+                 ["new_cells", ["Qn"], mk("un", [["x", None]], ["ifgt", ["var", "x"], 1, ["none"], ["var", "x"]])],
+                 ["new_cells", ["Qn"], mk("cn", [["x", None]], ["bin", "+", ["call", ["name", "un"], [["var", "x"]], "()"],
+                                                               ["lit", 1]])]]
+        for op in extra:
+            ops.append(op)
+            gen.apply_ref(G, op)
+        forced.append(["Qn", "un"])
+        scen.append([["eval", ["Qn"], "un", [1], None, "()"], ["eval", ["Qn"], "un", [2], None, "()"],
+                     ["eval", ["Qn"], "cn", [3], None, "()"], ["eval", ["Qn"], "cn", [0], None, "()"]])
     allcells = sorted({(tuple(op[1]), op[2]["name"]) for op in ops if op[0] == "new_cells"}
                       - {(tuple(f[:-1]), f[-1]) for f in forced})
     n = min(len(allcells), draw(st.sampled_from([1, 2, 3, 3, 4, 4, 5, 5]))) if allcells else 0
@@ -199,7 +212,12 @@ def run_once(case, mask):
             # uncached cells execute on every call
             key = tuple(x for x in op[1] if isinstance(x, str)) + (op[2],)
             if res[0] == "ok" and uncached_now.get(key) and all(isinstance(x, str) for x in op[1]):
-                if not ticks:       # (tick names are those at definition time: compare by count only)
+                try:
+                    live = real.space(key[:-1]).cells[key[-1]].is_cached
+                except Exception:
+                    live = True
+                # (a derived copy that took the place of the flagged cells follows its definer's flag)
+                if not ticks and not live:       # (tick names are those at definition time: compare by count only)
                     return answers, ("uncached-not-executed", "step %d: %r returned without running its formula "
                                                               "(flags %r)" % (i, op, sorted(uncached_now.items())))
         elif k in EDIT_OPS:
@@ -240,6 +258,17 @@ def unhashable_probe():
             return "wrong value with unhashable arguments"
     except Exception as exc:
         return "unhashable arguments rejected by an uncached cells: %r" % (mx.get_error() or exc)
+    # a failure inside such a call is reported like any other failure
+    s.new_cells("bad", "lambda xs: 12 // len(xs)", is_cached=False)
+    s.new_cells("topbad", "lambda k: bad([]) + k")
+    for call in (lambda: s.bad([]), lambda: s.topbad(1)):
+        try:
+            call()
+            return "a failing call with unhashable arguments returned a value"
+        except Exception as exc:
+            if type(exc).__name__ != "FormulaError" or not isinstance(mx.get_error(), ZeroDivisionError):
+                return "a failure inside an uncached cells called with unhashable arguments surfaced as %r (error %r)" % (
+                    exc, mx.get_error())
     return None
 
 
